@@ -91,6 +91,13 @@ impl<'a, TPrinter: Printer> FileExecutor<'a, TPrinter> {
                     break;
                 }
 
+                // A line that is not valid UTF-8 is skipped, the lines after it are still processed
+                if let Err(err) = line.as_ref() {
+                    if err.kind() == std::io::ErrorKind::InvalidData {
+                        continue;
+                    }
+                }
+
                 if let Ok(line) = line {
                     self.statistics.total_lines += 1;
                     self.statistics.ingested_bytes += line.len() + 1; // +1 for line ending
